@@ -507,6 +507,10 @@ def enc (s : Str) : Bytes := s.map fun ch => if ch.toNat < 256 then UInt8.ofNat 
 def dec (b : Bytes) : Except Str Str := .ok (b.map fun x => Char.ofNat x.toNat)
 def codec : Codec := ⟨enc, dec⟩
 
+/-- a codec that starts every encoding with a byte-order mark, as UTF-16 does: `enc "" = [255, 254]` -/
+def bomCodec : Codec :=
+  ⟨fun s => 255 :: 254 :: enc s, fun b => match b with | 255 :: 254 :: r => dec r | _ => .error "no BOM".toList⟩
+
 /-- a reader core that records what it was handed -/
 def reader : ReaderCore (List Stream) Unit Str where
   parseStream := fun d st => .ok (d ++ [st])
